@@ -587,9 +587,12 @@ func c03Slices(thorough bool) []c03Slice {
 	return []c03Slice{
 		{"all<=5", proggen.LinOpts{MaxNodes: 5}},
 		{"6-nodes/1var/reduced/with-jump", proggen.LinOpts{MaxNodes: 6, MinNodes: 6, Reduced: true, OneVar: true, NoOptional: true, NeedJump: true}},
+		// the smallest programs in which an exiting branch is merged with a partially invalidating one
+		{"6-nodes/1var/exit-branch-vs-partial-branch", proggen.LinOpts{MaxNodes: 6, MinNodes: 6, OneVar: true, Filter: proggen.BranchExitVsPartial}},
 	}
 }
 
+// (7-node members of the exit-branch-vs-partial-branch family are among the seeds.)
 // c03Seeds are hand-written programs beyond the exhaustive node bound (7-9
 // nodes): nested loops, jumps combined with return/panic in a branch, two
 // variables across a loop, optional binding around a loop. They are judged
@@ -604,6 +607,10 @@ D0;loop{if{break;}}I0;                 D0;loop{if{I0;panic;}if{break;}}I0;      
 loop{D0;if{I0;break;}I0;}              loop{D0;loop{if{I0;return;}}if{I0;continue;}I0;}  D0;loop{D1;if{I1;I0;return;}I1;}I0;
 D0;loop{D1;if{I1;continue;}A1;}I0;     D0;loop{I0;loop{}}panic;                  D0;D1;loop{if{I0;return;}U1;}I0;I1;
 fun0{loop{if{I0;return;}}I0;}D0;for{D1;I1;}I0;   O0;for{iflet1<0{I1;return;}else{return;}}I0;
+D0;if{I0;return;}else{if{I0;}}         D0;if{if{I0;}}else{I0;return;}            D0;if{I0;return;}else{loop{I0;break;}}
+D0;if{I0;return;}else{if{I0;}}I0;      D0;if{I0;panic;}else{if{I0;}}             loop{D0;if{I0;break;}else{if{I0;}}I0;}
+loop{D0;if{I0;continue;}else{if{I0;}}} D0;if{I0;return;}else{if{I0;}else{I0;}}   D0;U0;if{I0;return;}else{if{U0;I0;}}
+D0;if{if{I0;}else{}}else{U0;I0;return;}  D0;D1;if{I0;I1;return;}else{if{I0;}I1;}  D0;if{I0;return;}else{loop{if{I0;break;}}}
 `)
 
 func runC03(env *mc.Env) {
